@@ -330,6 +330,26 @@ def r20e(ctx, rep, cr):
     rep.floor('R20e', 'index sites in decoders', n, 5)
 
 
+def r20f(ctx, rep, cr):
+    rep.rule('R20f', 'the frame decoder refuses nothing the encoder emitted: a size policy on a constant applied anywhere on the decode side of '
+                     'tensor_chain::tcp (decode_payload*, read_frame*, decompress — e.g. MAX_DECOMPRESSED_SIZE on the claimed decompressed '
+                     'size) has a counterpart on the same constant on the encode side (encode*, compress). The encoder bounds the frame it '
+                     'emits; if only the decoder bounds the decompressed size, a large message that compresses well is sent and every '
+                     'receiver rejects it')
+    readers = [f for n, f in cr.fns.items() if '::tcp::' in n and re.search(r'(decode_payload|read_frame|decompress)', A.parent_fn(n).split('::')[-1])]
+    writers = [f for n, f in cr.fns.items() if '::tcp::' in n and re.search(r'^(encode|compress|write_frame)', A.parent_fn(n).split('::')[-1])]
+    bad, n = lib.reader_only_policies(readers, writers)
+    for k, (g, line, op, cs) in enumerate(bad):
+        rep.analysed(g)
+        rep.violation('R20f', g, 'decoder-only-limit', g.loc(line),
+                      'the decoder rejects input by comparing a size with %s and no encoder applies that bound: encode(m) succeeds for a '
+                      'message that decode then refuses' % ', '.join(cs))
+    if not bad:
+        rep.holds('R20f', 'tensor_chain::tcp', 'size policies', '%d decoder-side policy comparison(s), all matched by the encoders' % n)
+    rep.floor('R20f', 'decoder-side functions', len(readers), 4)
+    rep.floor('R20f', 'decoder-side size policies', n, 1)
+
+
 def run(ctx, rep):
     cr = ctx.crate('tensor_chain')
     r20a(ctx, rep, cr)
@@ -337,3 +357,4 @@ def run(ctx, rep):
     r20c(ctx, rep)
     r20d(ctx, rep, cr)
     r20e(ctx, rep, cr)
+    r20f(ctx, rep, cr)
